@@ -123,6 +123,32 @@ def _algebra(S, TM):
 
 
 # ---------------------------------------------------------------------------
+def jvp_helper_clause(S, TM):
+    """the hand-written derivative rule shared by log_symm / exp_symm / sqrt_symm / pow_symm is the Daleckii-Krein form
+    sym(V (h o V^T sym(Cdot) V) V^T), including the tie guards (also part of C10: it is the rule the stress is built from)"""
+    o3 = O3('v')
+    V = onp.array(o3.Qt, dtype=object)
+    lam = J.sym_array('lam', (3,))
+    Cd = J.sym_array('cd', (3, 3))
+    symCd = (Cd + Cd.T) / 2
+    helper = _with_eigen_stub(lambda lam_, V_, Cd_: TM._symmetric_matrix_function_jvp_helper(
+        lambda x: J.uf('f', x), lambda x1, x2: J.uf('rd', x1, x2), (V_ @ jnp.diag(lam_) @ V_.T,), (Cd_,)))
+    Dk = J.to_obj(J.symbolic_call(helper, lam, V, Cd))
+    W = V.T.dot(symCd).dot(V)
+    h = onp.empty((3, 3), dtype=object)
+    fd = lambda x: tm.app('f_d0', (x,))
+    rd = lambda x1, x2: tm.ite(tm.eq(x2, x1), fd(x1), tm.app('rd', (x1, tm.ite(tm.eq(x2, x1), x2 + 1, x2))))
+    for k in range(3):
+        h[k, k] = fd(lam[k])
+    h[0, 1] = h[1, 0] = rd(lam[0], lam[1])
+    h[1, 2] = h[2, 1] = rd(lam[1], lam[2])
+    h[2, 0] = h[0, 2] = rd(lam[2], lam[0])
+    M = V.dot(h * W).dot(V.T)
+    DKform = (M + M.T) / 2
+    _mod(S, o3, 'TensorMath._symmetric_matrix_function_jvp_helper/is_daleckii_krein_form', [(Dk[i, j], DKform[i, j]) for i in range(3) for j in range(3)])
+
+
+
 def _tensor_functions(S, TM):
     o3 = O3('v')
     V = onp.array(o3.Qt, dtype=object)
@@ -139,21 +165,7 @@ def _tensor_functions(S, TM):
     _mod(S, o3, 'TensorMath.symmetric_matrix_function/is_V_f_of_Lambda_V_transposed', [(Fm[i, j], expect[i, j]) for i in range(3) for j in range(3)])
     _mod(S, o3, 'TensorMath.symmetric_matrix_function/result_symmetric', [(Fm[i, j], Fm[j, i]) for i in range(3) for j in range(i + 1, 3)])
 
-    helper = _with_eigen_stub(lambda lam_, V_, Cd_: TM._symmetric_matrix_function_jvp_helper(
-        lambda x: J.uf('f', x), lambda x1, x2: J.uf('rd', x1, x2), (V_ @ jnp.diag(lam_) @ V_.T,), (Cd_,)))
-    Dk = J.to_obj(J.symbolic_call(helper, lam, V, Cd))
-    W = V.T.dot(symCd).dot(V)
-    h = onp.empty((3, 3), dtype=object)
-    fd = lambda x: tm.app('f_d0', (x,))
-    rd = lambda x1, x2: tm.ite(tm.eq(x2, x1), fd(x1), tm.app('rd', (x1, tm.ite(tm.eq(x2, x1), x2 + 1, x2))))
-    for k in range(3):
-        h[k, k] = fd(lam[k])
-    h[0, 1] = h[1, 0] = rd(lam[0], lam[1])
-    h[1, 2] = h[2, 1] = rd(lam[1], lam[2])
-    h[2, 0] = h[0, 2] = rd(lam[2], lam[0])
-    M = V.dot(h * W).dot(V.T)
-    DKform = (M + M.T) / 2
-    _mod(S, o3, 'TensorMath._symmetric_matrix_function_jvp_helper/is_daleckii_krein_form', [(Dk[i, j], DKform[i, j]) for i in range(3) for j in range(3)])
+    jvp_helper_clause(S, TM)
 
     # square root: value squares to A (the derivative rule is covered by the Daleckii-Krein clause above together with
     # the divided-difference clause of _sqrt_relative_difference; its Sylvester form is checked numerically in the bounded part)
